@@ -1382,3 +1382,24 @@ M("c09_box_str_split_off_prefix_arm_unchecked", ["C09"], ["C09.R7", "C09.R1"], [
 """, """        if start == 0 {
 """)])
 
+M("c01_prepare_down_trims_after_fit_test_revert", ["C01"], ["C01.R7"], [
+    ("src/bumping.rs", """    let start = up_align_unchecked(start, layout.align());
+
+    // REGULAR_CHUNK: `start` and `end` must be part of the same allocated object.
+    // Allocated objects can't have a size greater than `isize::MAX`, so this doesn't overflow.
+    //
+    // DUMMY_CHUNK: `end - start` will always return `-16`
+    let remaining = end.wrapping_sub(start) as isize;
+
+    if unlikely(layout.size() as isize > remaining) {
+        return None;
+    }
+""", """    let remaining = end.wrapping_sub(start) as isize;
+
+    if unlikely(layout.size() as isize > remaining) {
+        return None;
+    }
+
+    let start = up_align_unchecked(start, layout.align());
+""")])
+
